@@ -45,6 +45,14 @@ if [ "$TIER" = thorough ] || [ "$PROP" = build ] || [ "$PROP" = C08 ]; then
   build stmt "-stmt" || { echo "note: statement-granularity build failed"; rm -f $W/vsched-stmt; }
 fi
 [ "$PROP" = build ] && exit 0
+if [ "$PROP" = replay ]; then
+  # run_sched.sh replay <file>: re-execute one recorded schedule (scenario + choice sequence) on the current tree
+  F=$TIER
+  SC=$(jq -r '.replay.scenario' "$F"); CH=$(jq -r '.replay.choices | map(tostring) | join(",")' "$F"); ST=$(jq -r '.replay.stmt // false' "$F")
+  BIN=$W/vsched-sync
+  if [ "$ST" = true ]; then build stmt "-stmt" || exit 3; BIN=$W/vsched-stmt; fi
+  exec $BIN replay "$SC" "$CH"
+fi
 export VERIF_TIER=$TIER
 if [ "$PROP" = C08 ]; then
   # the compilation cache has no synchronisation operations of its own: explore it at statement granularity
